@@ -132,6 +132,7 @@ def run(chk):
                 write_tree(root, c)
                 fm.write(model_line(c) + "\n")
                 fc.write("load %s %s %s %s\n" % (root, c["cwd"], c["entry"], ";".join(c["search"]) or "-"))
+        kinds["working directory removed"] = removed_cwd_runs(chk, tmp)
         rc, om = vlib.sh([exe_m, os.path.join(tmp, "m.txt")], timeout=1800)
         rc2, oc = vlib.sh([drv, os.path.join(tmp, "c.txt")], timeout=1800)
         lm, lc = om.splitlines(), oc.splitlines()
@@ -236,6 +237,28 @@ def fixed_cases():
     out.append({"files": {"proj/Main.bloch": f([], ["W:a"], 1), "proj/a/A.bloch": f(["a"]), "proj/a/C.bloch": f(["a"]), "proj/a/Z.bloch": f(["a"])},
                 "entry": "proj/Main.bloch", "search": [], "cwd": "proj", "noise": [("proj/a", "dangling"), ("proj/a", "text"), ("proj/a", "dir")]})
     return out
+
+
+def removed_cwd_runs(chk, tmp):
+    """the working directory is the last root tried: when it has been removed under the process, an import that resolves from the
+    importing file's directory (or a search path) still loads, and one that resolves nowhere is still a Semantic diagnostic"""
+    exe = os.path.join(vlib.BUILD, "hooked", "bin", "bloch")
+    base = os.path.join(tmp, "rmcwd")
+    os.makedirs(base, exist_ok=True)
+    open(os.path.join(base, "Util.bloch"), "w").write("function seven() -> int { return 7; }\n")
+    open(os.path.join(base, "main.bloch"), "w").write("import Util;\nfunction main() -> void { echo(seven()); }\n")
+    open(os.path.join(base, "bad.bloch"), "w").write("import Nowhere;\nfunction main() -> void { echo(1); }\n")
+    n = 0
+    for src, want in (("main.bloch", "7"), ("bad.bloch", "Semantic error")):
+        gone = os.path.join(base, "gone%d" % n)
+        os.makedirs(gone, exist_ok=True)
+        rc, out = vlib.sh("cd %s && rmdir %s && BLOCH_NO_UPDATE_CHECK=1 exec %s %s 2>&1" % (gone, gone, exe, os.path.join(base, src)), timeout=60)
+        n += 1
+        if want not in out or "filesystem error" in out:
+            chk.report("c19-removed-cwd", {"entry": src, "files": {"Util.bloch": "function seven", "main.bloch": "import Util;", "bad.bloch": "import Nowhere;"},
+                                           "output": out[-400:], "how": "cd D && rmdir D && bloch /abs/%s" % src},
+                       "with the working directory removed, %s: expected %r, got %r" % (src, want, out.strip()[-120:]))
+    return n
 
 
 def late_package_cases():
